@@ -57,6 +57,35 @@ def check_sink(env, obl, sink, off, exp, key=None):
     return env.check(obl, AND(*conds), key, "bytes written differ from the reference encoding")
 
 
+def unhashable_map_key(env, t):
+    """kind of the first map key type inside type descriptor t whose runtime values cannot be dictionary keys
+    (hash() of a value of the real runtime class raises), else None.  yardl_types.Time once defined __eq__
+    without __hash__, which made every time-keyed map unreadable in Python (repaired in /repo by e66f1b6);
+    the violation keeps the stable key py:<kind>-keyed-map-unhashable."""
+    if not isinstance(t, list) or not t:
+        return None
+    if t[0] == "map" and isinstance(t[1], list) and t[1]:
+        mk = {"time": lambda: env.T.Time(1), "datetime": lambda: env.T.DateTime(1), "date": lambda: datetime.date(2024, 2, 29)}.get(t[1][0])
+        if mk is not None:
+            try:
+                hash(mk())
+            except TypeError:
+                return t[1][0]
+    for a in t[1:]:
+        if isinstance(a, list):
+            subs = [a] if (a and isinstance(a[0], str)) else [x for x in a if isinstance(x, list)]
+            for x in subs:
+                r = unhashable_map_key(env, x)
+                if r:
+                    return r
+    return None
+
+
+def fail_unhashable(env, obl, kind):
+    env.observe("exc", "unhashable %s key" % kind)
+    env.fail(obl, "py:%s-keyed-map-unhashable" % kind, "values of the runtime class for yardl `%s` are unhashable: a Python dict cannot hold a %s-keyed map" % (kind, kind))
+
+
 def unexpected(env, obl, e, variant="", mode=""):
     key = env.exc_key(e) + (":short-read-schedule" if mode == "short" else "")
     env.observe("exc", key)
@@ -576,6 +605,9 @@ def stream_expected(env, t, v, variant, exp, split=False):
 
 def h_ser_write(env, t, N, maxlen, variant="list"):
     cache = {}
+    uk = unhashable_map_key(env, t)
+    if uk:
+        return fail_unhashable(env, "ser.write-no-unexpected-exception", uk)
     ser = mk_ser(env, t, cache)
     v, inr = gen(env, t, "v", maxlen, cache)
     w, sink, off = mk_writer(env, N)
@@ -611,6 +643,9 @@ def h_ser_write(env, t, N, maxlen, variant="list"):
 def h_ser_read(env, t, N, mode, maxlen, variant="list"):
     cache = {}
     sfx = "[short-reads]" if mode == "short" else ""
+    uk = unhashable_map_key(env, t)
+    if uk:
+        return fail_unhashable(env, "ser.read-no-exception" + sfx, uk)
     ser = mk_ser(env, t, cache)
     v, inr = gen(env, t, "v", maxlen, cache)
     env.assume(inr)  # the reader is fed valid encodings of in-range values
@@ -1362,6 +1397,9 @@ def jeq(env, t, a, b):
 
 def h_conv(env, t, maxlen=2):
     cache = {}
+    uk = unhashable_map_key(env, t)
+    if uk:
+        return fail_unhashable(env, "conv.from_json-no-exception", uk)
     conv = mk_conv(env, t, cache)
     v, inr = gen_json(env, t, "v", maxlen, cache)
     ok, j = env.attempt(conv.to_json, v)
@@ -1412,10 +1450,10 @@ def h_json_kinds(env):
     # maps are written as an array of arrays" - the table the gosym union-tagging check (specKinds) relies on
     map_kinds = {}
     for k, rep in reps.items():
-        if k == "time":
-            # yardl_types.Time defines __eq__ without __hash__: a Python dict cannot hold Time keys at all, so every
-            # time-keyed map fails in MapConverter.from_json / MapSerializer.read with TypeError (reported as a
-            # suspected genuine defect of the unchanged tree; excluded here, not a listed known finding)
+        uk = unhashable_map_key(env, ["map", [k], ["int32"]])
+        if uk:
+            map_kinds[k] = "unhashable key"
+            fail_unhashable(env, "conv.map-kind==object-iff-string-key", uk)
             continue
         conv = env.J.MapConverter(getattr(env.J, CONV_SIMPLE[k]), env.J.int32_converter)
         ok, j = env.attempt(conv.to_json, {rep: 1})
